@@ -1,5 +1,6 @@
 """C01 -- every commitment conserves the channel's funds and both peers agree on it; limits exact."""
 import chan_common as cc
+import splice_common
 
 def run(tier, seed):
     return cc.run_check("C01", tier, seed,
@@ -9,4 +10,8 @@ def run(tier, seed):
                            ("default", 3, 300), ("async", 3, 200)],
         families=[("holdcell", 250), ("crosslimit", 250), ("bigclaim", 200), ("dustclose", 150), ("asyncsign", 100), ("slots", 12)],
         thorough_families=[("holdcell", 3000), ("crosslimit", 3000), ("bigclaim", 2000), ("dustclose", 1500), ("asyncsign", 1000), ("slots", 100)],
-        assumptions=cc.COMMON_ASSUMPTIONS)
+        extra_parts=[("quiescence+splicing", splice_common.run_part)],
+        assumptions=[a for a in cc.COMMON_ASSUMPTIONS if "splicing" not in a] + [
+            "channel opening and cooperative close negotiation are outside the traced part of a run of the BOLT-2 update engine",
+            "quiescence and splicing are judged by a separate part (Splice.tla / splicenet): static and anchors channels, no update_fee during "
+            "a splice, replace-by-fee rounds only as the library starts them itself"])
